@@ -16,7 +16,24 @@ from . import REPO
 TOOLS = ("cnfgen", "pbgen", "cnfshuffle", "kthlist2pebbling")
 
 
+_preloaded = False
+
+
+def preload_helpers():
+    """Import every cnfgen.clihelpers module once: the tools' helper discovery re-executes (and,
+    with bytecode off, re-compiles) each module that is not in sys.modules on *every* call."""
+    global _preloaded
+    if _preloaded:
+        return
+    import pkgutil
+    import cnfgen.clihelpers as pkg
+    for _, name, _ in pkgutil.walk_packages(pkg.__path__):
+        importlib.import_module(pkg.__name__ + "." + name)
+    _preloaded = True
+
+
 def tool_module(tool):
+    preload_helpers()
     importlib.import_module("cnfgen.clitools." + tool)
     return sys.modules["cnfgen.clitools." + tool]
 
